@@ -806,6 +806,10 @@ class PathEnumerator:
         val = getattr(b, "value", None)
         if isinstance(b, (ast.Expr, ast.Assign, ast.AnnAssign, ast.Return, ast.AugAssign)) and val is not None:
             st.events.append(("attempt", ev.expr(val, dict(st.env))))
+        # a compound statement abandoned while its header was being evaluated (`if (x := f(v)).attr ...:`)
+        head = b.test if isinstance(b, (ast.If, ast.While, ast.Assert)) else (b.iter if isinstance(b, ast.For) else None)
+        if head is not None and any(isinstance(n, (ast.Call, ast.Subscript, ast.Attribute, ast.BinOp, ast.Compare)) for n in ast.walk(head)):
+            st.events.append(("attempt", ev.expr(head, dict(st.env))))
 
 
 def _may_raise(s: ast.stmt) -> bool:
@@ -905,7 +909,7 @@ def splice_helpers(prog: Program, paths: list[Path], _depth: int = 0) -> list[Pa
     """Paths with calls to private, undecorated, multi-statement module-level helpers of the package replaced by the
     helper's own paths: the helper's events (parameters bound to the arguments) precede the caller's, and the call term
     is replaced by the value the helper returns.  Moving a block of statements into such a helper is then invisible to
-    rules that inspect guards, events and result terms (they opt in; event order across the splice is approximate)."""
+    rules that inspect guards, events and result terms (they opt in; the helper's events are placed where the call is first evaluated)."""
     if _depth > 2:
         return paths
     out: list[Path] = []
@@ -938,10 +942,16 @@ def splice_helpers(prog: Program, paths: list[Path], _depth: int = 0) -> list[Pa
             out.append(p)
             continue
         changed = True
+        # position of the call in the caller's event sequence: the helper's events are spliced in there
+        at = len(p.events)
+        for i, e in enumerate(p.events):
+            if any(is_term(y) and T.contains(y, lambda z: z == x) for y in e):
+                at = i
+                break
         for q in paths_of(prog, fi):
             qev = [tuple(substitute(y, sigma) if is_term(y) else y for y in e) for e in q.events]
             if q.exit[0] != "return":
-                out.append(Path(qev + list(p.events), q.exit if len(q.exit) == 1 else (q.exit[0], substitute(q.exit[1], sigma)), dict(p.env)))
+                out.append(Path(list(p.events[:at]) + qev, q.exit if len(q.exit) == 1 else (q.exit[0], substitute(q.exit[1], sigma)), dict(p.env)))
                 continue
             r = substitute(q.exit[1], sigma)
 
@@ -950,7 +960,7 @@ def splice_helpers(prog: Program, paths: list[Path], _depth: int = 0) -> list[Pa
 
             pev = [tuple(repl(y) if is_term(y) else y for y in e) for e in p.events]
             exit_ = p.exit if len(p.exit) == 1 else (p.exit[0], repl(p.exit[1]))
-            out.append(Path(qev + pev, exit_, dict(p.env)))
+            out.append(Path(pev[:at] + qev + pev[at:], exit_, dict(p.env)))
     return splice_helpers(prog, out, _depth + 1) if changed else out
 
 
